@@ -265,7 +265,7 @@ func enumerate[C any](t *testing.T, id string, cases []C, check func(C) (Outcome
 		return
 	}
 	for _, c := range cases {
-		_, err := judge(id, c, check, false)
+		_, err := judge(id, c, check, true)
 		if err != nil {
 			t.Fatalf("%s: %v", id, err)
 		}
